@@ -1128,7 +1128,8 @@ pub fn gen_lenient(rng: &mut Rng, flavor: Flavor, keys: &KeyWorld) -> Result<Req
     };
     match flavor {
         Flavor::V3 => {
-            mac = fresh(rng, rng.usize(1, 24));
+            let n = rng.usize(1, 24);
+            mac = fresh(rng, n);
         }
         Flavor::V4Plain | Flavor::V4Upgrade | Flavor::V5Plain => {
             if flavor == Flavor::V4Upgrade {
@@ -1150,7 +1151,8 @@ pub fn gen_lenient(rng: &mut Rng, flavor: Flavor, keys: &KeyWorld) -> Result<Req
                 let at = rng.usize(0, fields.len());
                 fields.insert(at, F::DraftId);
             } else if rng.bool() {
-                mac = fresh(rng, *rng.pick(&[4usize, 8, 12, 16, 20, 24]));
+                let n = *rng.pick(&[4usize, 8, 12, 16, 20, 24]);
+                mac = fresh(rng, n);
             }
         }
         Flavor::V4Nts | Flavor::V5Nts => {
@@ -1198,7 +1200,8 @@ pub fn gen_lenient(rng: &mut Rng, flavor: Flavor, keys: &KeyWorld) -> Result<Req
                 fields.push(if rng.bool() { F::Uid(fresh(rng, l)) } else { F::Unknown(unknown_type(rng), fresh(rng, l)) });
             }
             if !v5 && rng.chance(1, 4) {
-                mac = fresh(rng, *rng.pick(&[4usize, 20, 24]));
+                let n = *rng.pick(&[4usize, 20, 24]);
+                mac = fresh(rng, n);
             }
             nts = Some(NtsTruth { session, cookie_age: rot - snap, cookie_current: true, auth_ok: None });
         }
